@@ -30,11 +30,39 @@ type KChild struct {
 	V  int
 }
 
-var keyAlphabet = []string{"a", "b", "c", "a_b", "b_c", "nil", "x y", "é", "a_", "_b", "0", "1"}
+var keyAlphabet = []string{"a", "b", "c", "a_b", "b_c", "nil", "x y", "é", "a_", "_b", "0", "1",
+	"A", "AB", "Ab", "aB", "ab", "É", "NIL", "Nil", "", "ß", "İ", "a\tb", "true", "-1", "a ", " a", "a\n", "01", "1.0", "+1"}
 
 func genKeyVal(rng *rand.Rand) (interface{}, interface{}) {
 	s := keyAlphabet[rng.Intn(len(keyAlphabet))]
-	switch rng.Intn(12) {
+	switch rng.Intn(20) {
+	case 12:
+		if s == "" {
+			return c11Code(s), nil // named string type: default arm, zero value prints "nil"
+		}
+		return c11Code(s), map[string]interface{}{"s": s}
+	case 13:
+		if rng.Intn(2) == 0 {
+			return false, nil
+		}
+		return true, map[string]interface{}{"s": "true"}
+	case 14:
+		n := int8(rng.Intn(5) - 2)
+		return n, map[string]interface{}{"i": n}
+	case 15:
+		n := uint(rng.Intn(3))
+		return &n, map[string]interface{}{"u": n} // *uint is not `uint`: default arm, prints the pointee (also 0)
+	case 16:
+		return &s, map[string]interface{}{"s": s} // non-nil *string prints the pointee (also "")
+	case 17:
+		if rng.Intn(2) == 0 {
+			return sql.NullInt64{}, nil
+		}
+		n := int64(rng.Intn(3))
+		return sql.NullInt64{Int64: n, Valid: true}, map[string]interface{}{"i": n}
+	case 18:
+		var b []byte
+		return b, map[string]interface{}{"b": ""}
 	case 0:
 		return s, map[string]interface{}{"s": s}
 	case 1:
@@ -72,91 +100,343 @@ func genKeyVal(rng *rand.Rand) (interface{}, interface{}) {
 	}
 }
 
+// three-column key of mixed Go types (int: zero prints "nil"; uint: zero prints "0"; string: "" prints "")
+type C11K3Parent struct {
+	R    int    `gorm:"primaryKey;autoIncrement:false"`
+	U    uint   `gorm:"primaryKey;autoIncrement:false"`
+	S    string `gorm:"primaryKey"`
+	Name string
+	Kids []C11K3Child `gorm:"foreignKey:PR,PU,PS;references:R,U,S"`
+}
+
+type C11K3Child struct {
+	ID uint `gorm:"primaryKey"`
+	PR int
+	PU uint
+	PS string
+}
+
 type c11Graph struct {
-	Parents  [][2]string      `json:"parents"`
-	Children [][3]interface{} `json:"children"` // id, pa, pb
+	Shape    string          `json:"shape,omitempty"` // "" = two strings (KParent) | "ius" = int, uint, string (C11K3Parent)
+	Parents  [][]interface{} `json:"parents"`         // key tuples, distinct
+	Children [][]interface{} `json:"children"`        // id, fk tuple
+}
+
+var c11SafeAlpha = []string{"a", "A", "ab", "AB", "Ab", "b", "c", "x y", "é", "É", "0", "1", "nil", "nilx", "", "a ", " a", "ab\t", "01", "1.0"}
+
+func (g c11Graph) arity() int {
+	if g.Shape == "ius" {
+		return 3
+	}
+	return 2
 }
 
 func genKeyGraph(rng *rand.Rand, safe bool) c11Graph {
-	alpha := keyAlphabet
-	if safe {
-		alpha = []string{"a", "b", "c", "x y", "é", "0", "1", "nilx"}
+	alpha := c11SafeAlpha
+	if !safe {
+		alpha = keyAlphabet
 	}
 	g := c11Graph{}
-	seen := map[[2]string]bool{}
-	for i, n := 0, 1+rng.Intn(5); i < n; i++ {
-		k := [2]string{alpha[rng.Intn(len(alpha))], alpha[rng.Intn(len(alpha))]}
-		if !seen[k] {
-			seen[k] = true
+	if rng.Intn(2) == 0 {
+		g.Shape = "ius"
+	}
+	tuple := func() []interface{} {
+		if g.Shape == "ius" {
+			return []interface{}{rng.Intn(4) - 1, rng.Intn(3), alpha[rng.Intn(len(alpha))]}
+		}
+		return []interface{}{alpha[rng.Intn(len(alpha))], alpha[rng.Intn(len(alpha))]}
+	}
+	seen := map[string]bool{}
+	for i, n := 0, 1+rng.Intn(6); i < n; i++ {
+		k := tuple()
+		if rng.Intn(3) == 0 { // zero-valued components
+			z := rng.Intn(len(k))
+			k[z] = c11ZeroLike(k[z])
+			for j := range k {
+				if rng.Intn(3) == 0 {
+					k[j] = c11ZeroLike(k[j])
+				}
+			}
+		}
+		if !seen[canon(k)] {
+			seen[canon(k)] = true
 			g.Parents = append(g.Parents, k)
 		}
 	}
-	id := 1
-	for i, n := 0, rng.Intn(8); i < n; i++ {
-		var k [2]string
+	for i, n := 0, rng.Intn(9); i < n; i++ {
+		var k []interface{}
 		if rng.Intn(4) > 0 {
 			k = g.Parents[rng.Intn(len(g.Parents))]
 		} else {
-			k = [2]string{alpha[rng.Intn(len(alpha))], alpha[rng.Intn(len(alpha))]}
-			if !seen[k] {
-				// orphan key: give it a parent too (a child without any matching parent makes preload fail by design)
-				seen[k] = true
-				g.Parents = append(g.Parents, k)
-			}
+			k = tuple() // usually an orphan
 		}
-		g.Children = append(g.Children, [3]interface{}{id, k[0], k[1]})
-		id++
+		g.Children = append(g.Children, append([]interface{}{i + 1}, k...))
 	}
 	return g
 }
 
+func c11ZeroLike(v interface{}) interface{} {
+	if _, ok := v.(string); ok {
+		return ""
+	}
+	return 0
+}
+
+// reference rendering of one component (what the unchanged ToStringKey prints), used only for the F6 pattern
+func (g c11Graph) render(k []interface{}) string {
+	var parts []string
+	for j, v := range k {
+		v = c11Norm(v)
+		if n, ok := v.(int64); ok && n == 0 && !(g.Shape == "ius" && j == 1) {
+			parts = append(parts, "nil")
+		} else {
+			parts = append(parts, fmt.Sprint(v))
+		}
+	}
+	return strings.Join(parts, "_")
+}
+
 func (g c11Graph) collision() bool {
-	keys := map[string][2]string{}
+	keys := map[string]string{}
 	for _, p := range g.Parents {
-		j := p[0] + "_" + p[1]
-		if o, ok := keys[j]; ok && o != p {
+		if c11TupleZero(p) {
+			continue
+		}
+		j := g.render(p)
+		if o, ok := keys[j]; ok && o != canon(p) {
 			return true
 		}
-		keys[j] = p
+		keys[j] = canon(p)
 	}
 	return false
 }
 
-func c11RunKeyGraph(g c11Graph) (got map[string][]int, want map[string][]int, err error) {
+func c11TupleZero(k []interface{}) bool {
+	for _, v := range k {
+		v = c11Norm(v)
+		if v != int64(0) && v != "" {
+			return false
+		}
+	}
+	return true
+}
+
+func c11TupleEq(a, b []interface{}) bool {
+	if len(a) != len(b) {
+		return false
+	}
+	for i := range a {
+		if c11Norm(a[i]) != c11Norm(b[i]) {
+			return false
+		}
+	}
+	return true
+}
+
+// KeyVal JSON + zero flag of one component of a graph tuple (per column type of the shape)
+func (g c11Graph) kv(j int, v interface{}) (interface{}, bool) {
+	v = c11Norm(v)
+	switch x := v.(type) {
+	case string:
+		return map[string]interface{}{"s": x}, x == ""
+	case int64:
+		if g.Shape == "ius" && j == 1 {
+			return map[string]interface{}{"u": x}, x == 0
+		}
+		return map[string]interface{}{"i": x}, x == 0
+	}
+	panic("c11 kv")
+}
+
+type c11KeyRun struct {
+	Slice  map[int][]int // parent index -> attached child ids, Find(&[]parents) path
+	Single map[int][]int // First(&parent) path (struct branch of the identity map)
+	Want   map[int][]int // reference join (tuple equality); all-zero parents are not judged
+	Order  []int         // parent indexes in the order Find returned them
+	Err    error
+}
+
+func c11RunKeyGraph(g c11Graph) (res c11KeyRun) {
 	db, _, sqlDB := OpenRec(nil)
 	defer sqlDB.Close()
-	if e := db.AutoMigrate(&KParent{}, &KChild{}); e != nil {
+	if e := db.AutoMigrate(&KParent{}, &KChild{}, &C11K3Parent{}, &C11K3Child{}); e != nil {
 		panic(e)
 	}
-	for _, p := range g.Parents {
-		if e := db.Create(&KParent{A: p[0], B: p[1], Name: p[0] + "|" + p[1]}).Error; e != nil {
-			return nil, nil, e
+	ptab, ctab, pcols, ccols := "k_parents", "k_children", "a,b", "pa,pb"
+	if g.Shape == "ius" {
+		ptab, ctab, pcols, ccols = "c11_k3_parents", "c11_k3_children", "r,u,s", "pr,pu,ps"
+	}
+	qs := strings.TrimSuffix(strings.Repeat("?,", g.arity()+1), ",")
+	for i, p := range g.Parents {
+		args := append([]interface{}{}, p[:g.arity()]...)
+		for j := range args {
+			args[j] = c11Norm(args[j])
+		}
+		if _, e := sqlDB.Exec("INSERT INTO "+ptab+" ("+pcols+",name) VALUES ("+qs+")", append(args, fmt.Sprintf("p%03d", i))...); e != nil {
+			res.Err = e
+			return
 		}
 	}
-	want = map[string][]int{}
+	res.Want = map[int][]int{}
 	for _, c := range g.Children {
-		id, pa, pb := c[0].(int), c[1].(string), c[2].(string)
-		if e := db.Create(&KChild{ID: uint(id), PA: pa, PB: pb}).Error; e != nil {
-			return nil, nil, e
+		args := []interface{}{}
+		for _, v := range c[:g.arity()+1] {
+			args = append(args, c11Norm(v))
 		}
-		want[pa+"|"+pb] = append(want[pa+"|"+pb], id)
-	}
-	var ps []KParent
-	if e := db.Preload("Kids").Order("name").Find(&ps).Error; e != nil {
-		return nil, want, e
-	}
-	got = map[string][]int{}
-	for _, p := range ps {
-		ids := []int{}
-		for _, k := range p.Kids {
-			ids = append(ids, int(k.ID))
+		if _, e := sqlDB.Exec("INSERT INTO "+ctab+" (id,"+ccols+") VALUES ("+qs+")", args...); e != nil {
+			res.Err = e
+			return
 		}
+		for i, p := range g.Parents {
+			if c11TupleEq(p, c[1:]) {
+				res.Want[i] = append(res.Want[i], int(c11Norm(c[0]).(int64)))
+			}
+		}
+	}
+	res.Slice, res.Single = map[int][]int{}, map[int][]int{}
+	idx := func(name string) int {
+		var i int
+		fmt.Sscanf(name, "p%d", &i)
+		return i
+	}
+	put := func(m map[int][]int, i int, ids []int) {
 		sort.Ints(ids)
 		if len(ids) > 0 {
-			got[p.A+"|"+p.B] = ids
+			m[i] = ids
 		}
 	}
-	return got, want, nil
+	if g.Shape == "ius" {
+		var ps []C11K3Parent
+		if e := db.Preload("Kids").Order("name").Find(&ps).Error; e != nil {
+			res.Err = e
+			return
+		}
+		for _, p := range ps {
+			ids := []int{}
+			for _, k := range p.Kids {
+				ids = append(ids, int(k.ID))
+			}
+			res.Order = append(res.Order, idx(p.Name))
+			put(res.Slice, idx(p.Name), ids)
+		}
+		for i := range g.Parents {
+			var one C11K3Parent
+			if e := db.Preload("Kids").Where("name = ?", fmt.Sprintf("p%03d", i)).Take(&one).Error; e != nil {
+				res.Err = e
+				return
+			}
+			ids := []int{}
+			for _, k := range one.Kids {
+				ids = append(ids, int(k.ID))
+			}
+			put(res.Single, i, ids)
+		}
+	} else {
+		var ps []*KParent
+		if e := db.Preload("Kids").Order("name").Find(&ps).Error; e != nil {
+			res.Err = e
+			return
+		}
+		for _, p := range ps {
+			ids := []int{}
+			for _, k := range p.Kids {
+				ids = append(ids, int(k.ID))
+			}
+			res.Order = append(res.Order, idx(p.Name))
+			put(res.Slice, idx(p.Name), ids)
+		}
+		for i := range g.Parents {
+			var one KParent
+			if e := db.Preload("Kids").Where("name = ?", fmt.Sprintf("p%03d", i)).Take(&one).Error; e != nil {
+				res.Err = e
+				return
+			}
+			ids := []int{}
+			for _, k := range one.Kids {
+				ids = append(ids, int(k.ID))
+			}
+			put(res.Single, i, ids)
+		}
+	}
+	for i, p := range g.Parents {
+		if c11TupleZero(p) {
+			delete(res.Want, i) // convention: an entirely zero key is "no key"; not judged by the reference join
+		}
+	}
+	return
+}
+
+// the Lean ops predicting the attachment of one graph: slice path, then one single-struct path per parent
+func (g c11Graph) leanOps(order []int) [][]interface{} {
+	row := func(i int) []interface{} {
+		comps := []interface{}{}
+		for j, v := range g.Parents[i] {
+			kv, z := g.kv(j, v)
+			comps = append(comps, []interface{}{kv, z})
+		}
+		return []interface{}{i, comps}
+	}
+	kids := []interface{}{}
+	for _, c := range g.Children {
+		fk := []interface{}{}
+		for j, v := range c[1:] {
+			kv, _ := g.kv(j, v)
+			fk = append(fk, kv)
+		}
+		kids = append(kids, []interface{}{c11Norm(c[0]), fk})
+	}
+	rows := []interface{}{}
+	for _, i := range order {
+		rows = append(rows, row(i))
+	}
+	ops := [][]interface{}{{"preload.direct", rows, kids}}
+	for i := range g.Parents {
+		ops = append(ops, []interface{}{"preload.direct", []interface{}{row(i)}, kids})
+	}
+	return ops
+}
+
+func c11ParseAttach(raw json.RawMessage, into map[int][]int) {
+	var prs [][]json.RawMessage
+	_ = json.Unmarshal(raw, &prs)
+	for _, pr := range prs {
+		var a int
+		var ids []int
+		_ = json.Unmarshal(pr[0], &a)
+		_ = json.Unmarshal(pr[1], &ids)
+		sort.Ints(ids)
+		if len(ids) > 0 {
+			into[a] = ids
+		}
+	}
+}
+
+func c11JudgeKeyGraph(r *Result, g c11Graph, res c11KeyRun) {
+	bad := ""
+	if res.Err != nil {
+		bad = "preload failed: " + res.Err.Error()
+	} else {
+		for i, p := range g.Parents {
+			if c11TupleZero(p) {
+				continue
+			}
+			if fmt.Sprint(res.Slice[i]) != fmt.Sprint(res.Want[i]) {
+				bad = fmt.Sprintf("Find+Preload: parent %d %v got children %v, reference join %v", i, p, res.Slice[i], res.Want[i])
+				break
+			}
+			if fmt.Sprint(res.Single[i]) != fmt.Sprint(res.Want[i]) {
+				bad = fmt.Sprintf("Take+Preload (single struct): parent %d %v got children %v, reference join %v", i, p, res.Single[i], res.Want[i])
+				break
+			}
+		}
+	}
+	if bad != "" {
+		if g.collision() && listed("F6-C11-key-collision") {
+			r.KnownFinding("F6-C11-key-collision", "attached children differ from the reference join")
+		} else {
+			r.Violate(Violation{Kind: "e2e", Suite: "composite-keys", Input: g, Observed: map[string]interface{}{"slice": res.Slice, "single": res.Single, "err": fmt.Sprint(res.Err), "verdict": bad}, Expected: map[string]interface{}{"want": res.Want}})
+		}
+	}
 }
 
 // ---- relation family graph ------------------------------------------------------------------------
@@ -475,45 +755,106 @@ func init() {
 			}
 		}
 	})
-	// e2e: composite string keys
+	// e2e + correspondence: composite keys (two strings; int+uint+string) with zero-valued components and letter case;
+	// the reference join judges the property, the Lean model (identitySlice + attachedTo) must predict the observed
+	// attachment exactly — also under key-string collisions
 	register("C11", func(r *Result, rng *rand.Rand, tier string) {
-		n := 150
+		n := 600
 		if tier == "thorough" {
 			n = 15000
 		} else if tier == "search" {
-			n = 2000
+			n = 2500
 		}
+		var graphs []c11Graph
+		var runs []c11KeyRun
+		var ops [][]interface{}
+		var opAt []int
 		for i := 0; i < n && !expired(); i++ {
 			g := genKeyGraph(rng, i%4 != 0) // three quarters avoid the listed collision pattern
 			if i < 2 || i%10 == 9 {
 				// dedicated probe of the listed finding F6: two distinct tuples with the same '_'-join
-				g = c11Graph{Parents: [][2]string{{"a_b", "c"}, {"a", "b_c"}}, Children: [][3]interface{}{{1, "a_b", "c"}, {2, "a", "b_c"}}}
+				g = c11Graph{Parents: [][]interface{}{{"a_b", "c"}, {"a", "b_c"}}, Children: [][]interface{}{{1, "a_b", "c"}, {2, "a", "b_c"}}}
 				if i%10 == 9 {
-					g.Parents = append(g.Parents, [2]string{keyAlphabet[rng.Intn(3)], keyAlphabet[rng.Intn(3)]})
-					g.Children = append(g.Children, [3]interface{}{3, g.Parents[2][0], g.Parents[2][1]})
+					g.Parents = append(g.Parents, []interface{}{keyAlphabet[rng.Intn(3)], keyAlphabet[rng.Intn(3)]})
+					g.Children = append(g.Children, []interface{}{3, g.Parents[2][0], g.Parents[2][1]})
 				}
 			}
-			got, want, err := c11RunKeyGraph(g)
+			res := c11RunKeyGraph(g)
+			zero, part := false, false
+			for _, p := range g.Parents {
+				if c11TupleZero(p) {
+					zero = true
+				} else {
+					for _, v := range p {
+						if c11Norm(v) == int64(0) || c11Norm(v) == "" {
+							part = true
+						}
+					}
+				}
+			}
 			r.Case("composite-keys", canon(g), len(g.Parents) >= 2 && len(g.Children) >= 1)
 			r.H("composite.collision", fmt.Sprint(g.collision()))
+			r.H("composite.shape", fmt.Sprintf("%s allzero-parent=%v partzero-parent=%v", g.Shape, zero, part))
 			if i%53 == 0 {
-				r.Sample(map[string]interface{}{"suite": "composite-keys", "input": g, "attached": got})
+				r.Sample(map[string]interface{}{"suite": "composite-keys", "input": g, "attached": res.Slice})
 			}
-			bad := ""
-			if err != nil {
-				bad = "preload failed: " + err.Error()
-			} else if canon(got) != canon(want) {
-				bad = "attached children differ from the reference join"
+			c11JudgeKeyGraph(r, g, res)
+			if res.Err == nil {
+				graphs = append(graphs, g)
+				runs = append(runs, res)
+				opAt = append(opAt, len(ops))
+				ops = append(ops, g.leanOps(res.Order)...)
 			}
-			if bad != "" {
-				if g.collision() && listed("F6-C11-key-collision") {
-					r.KnownFinding("F6-C11-key-collision", bad)
-				} else {
-					r.Violate(Violation{Kind: "e2e", Suite: "composite-keys", Input: g, Observed: map[string]interface{}{"got": got, "err": fmt.Sprint(err)}, Expected: map[string]interface{}{"want": want, "verdict": bad}})
+		}
+		outs, err := AskLean(ops)
+		if err != nil {
+			r.Violate(Violation{Kind: "correspondence", Suite: "preload-attach", Note: err.Error()})
+			return
+		}
+		for gi, g := range graphs {
+			slice, single := map[int][]int{}, map[int][]int{}
+			c11ParseAttach(outs[opAt[gi]], slice)
+			for i := range g.Parents {
+				one := map[int][]int{}
+				c11ParseAttach(outs[opAt[gi]+1+i], one)
+				if len(one[i]) > 0 {
+					single[i] = one[i]
 				}
+			}
+			r.CorrCompared++
+			if canon(slice) != canon(runs[gi].Slice) || canon(single) != canon(runs[gi].Single) {
+				r.Violate(Violation{Kind: "correspondence", Suite: "preload-attach", Input: g,
+					Observed: map[string]interface{}{"slice": runs[gi].Slice, "single": runs[gi].Single},
+					Expected: map[string]interface{}{"slice": slice, "single": single},
+					Note:     "real Preload attachment vs Lean Gorm.preloadDirect (identitySlice + fetchIn + attachedTo)"})
 			}
 		}
 	})
+	replayers["C11/composite-keys"] = func(r *Result, input json.RawMessage) {
+		var g c11Graph
+		if err := json.Unmarshal(input, &g); err != nil {
+			r.Note("bad replay input: %v", err)
+			return
+		}
+		c11JudgeKeyGraph(r, g, c11RunKeyGraph(g))
+	}
+	replayers["C11/preload-attach"] = func(r *Result, input json.RawMessage) { r.Note("preload-attach replays are correspondence-only: rerun the suite") }
+	replayers["C11/relations"] = func(r *Result, input json.RawMessage) {
+		var in struct {
+			Graph   c11Rel `json:"graph"`
+			Variant int    `json:"variant"`
+		}
+		if err := json.Unmarshal(input, &in); err != nil {
+			r.Note("bad replay input: %v", err)
+			return
+		}
+		got, want, err := c11RunRel(in.Graph, in.Variant)
+		if err != nil {
+			r.Violate(Violation{Kind: "e2e", Suite: "relations", Input: in, Observed: err.Error(), Expected: "no error"})
+		} else if strings.Join(got, "\n") != strings.Join(want, "\n") {
+			r.Violate(Violation{Kind: "e2e", Suite: "relations", Input: in, Observed: got, Expected: want})
+		}
+	}
 	// e2e: relation family
 	register("C11", func(r *Result, rng *rand.Rand, tier string) {
 		n := 120
